@@ -201,13 +201,46 @@ pub fn build_d(cfg: &Cfg, pats: &[Vec<u8>]) -> Result<dfa::DFA, String> {
         .map_err(|e| e.to_string())
 }
 
+thread_local! {
+    /// Alternates per call: the low-level automata are driven directly and,
+    /// every other call, through the documented blanket `impl Automaton for
+    /// &A` (as generic caller code that is handed `&nfa` would).
+    static BY_REF: std::cell::Cell<bool> = std::cell::Cell::new(false);
+}
+
+pub fn by_ref_toggle() -> bool {
+    BY_REF.with(|b| {
+        let v = !b.get();
+        b.set(v);
+        v
+    })
+}
+
 macro_rules! low {
     ($self:expr, $a:ident => $e:expr) => {
-        match $self {
-            Searcher::Nc($a) => $e,
-            Searcher::C($a) => $e,
-            Searcher::D($a) => $e,
-            Searcher::Top(_) => unreachable!(),
+        if by_ref_toggle() {
+            match $self {
+                Searcher::Nc($a) => {
+                    let $a = &$a;
+                    $e
+                }
+                Searcher::C($a) => {
+                    let $a = &$a;
+                    $e
+                }
+                Searcher::D($a) => {
+                    let $a = &$a;
+                    $e
+                }
+                Searcher::Top(_) => unreachable!(),
+            }
+        } else {
+            match $self {
+                Searcher::Nc($a) => $e,
+                Searcher::C($a) => $e,
+                Searcher::D($a) => $e,
+                Searcher::Top(_) => unreachable!(),
+            }
         }
     };
 }
@@ -290,6 +323,9 @@ impl Searcher {
         extra: usize,
         cap: usize,
     ) -> Result<Vec<M>, MatchError> {
+        // never cut a legitimate drain short: at most one match per
+        // (offset, pattern) pair exists
+        let cap = cap.max((inp.haystack().len() + 1) * (self.patterns_len() + 1) + 3);
         let mut st = OverlappingState::start();
         let mut out = Vec::new();
         let mut quiet = 0;
@@ -298,6 +334,26 @@ impl Searcher {
             match st.get_match() {
                 Some(m) => out.push(to_m(m)),
                 None => quiet += 1,
+            }
+        }
+        Ok(out)
+    }
+
+    /// Like `overlapping_steps` but stops after exactly `limit` matches (used
+    /// where the caller knows how many occurrences exist and wants to see an
+    /// overrun).
+    pub fn overlapping_steps_limited(
+        &self,
+        inp: Input<'_>,
+        limit: usize,
+    ) -> Result<Vec<M>, MatchError> {
+        let mut st = OverlappingState::start();
+        let mut out = Vec::new();
+        while out.len() <= limit {
+            self.try_find_overlapping(inp.clone(), &mut st)?;
+            match st.get_match() {
+                Some(m) => out.push(to_m(m)),
+                None => break,
             }
         }
         Ok(out)
